@@ -186,6 +186,8 @@ def build_net(spec):
     class Net(nn.Module):
         def __init__(s):
             super().__init__()
+            # a depthwise convolution that comes FIRST in graph order (before every regular convolution)
+            s.dw0 = nn.Conv2d(3, 3, 3, padding=1, groups=3) if spec.get('dw_stem') else None
             s.c0 = nn.Conv2d(3, C, 3, padding=1)
             s.bn0 = nn.BatchNorm2d(C)
             for i, b in enumerate(spec['blocks']):
@@ -209,6 +211,8 @@ def build_net(spec):
             return x
 
         def forward(s, x):
+            if s.dw0 is not None:
+                x = s.dw0(x)
             x = F.relu(s.bn0(s.c0(x)))
             # an in-place statement outside the choice blocks, its return value unused
             if spec.get('stmt') == 'module':
@@ -369,6 +373,8 @@ def random_spec(rng, max_blocks=3, max_br=12, allow_pool=True, force=None, exclu
             'blocks': blocks, 'fixed_twice': rng.random() < 0.25}
     if 'stmt' not in exclude and rng.random() < 0.3:
         spec['stmt'] = rng.choice(STATEMENTS)
+    if 'dw_stem' not in exclude and rng.random() < 0.35:
+        spec['dw_stem'] = True
     if force:
         spec.update(force)
     return spec
